@@ -22,4 +22,5 @@ AlwaysValid == fsck /\ refsok
 (* interop steps (stock git pushing, collecting, cloning what git-bug wrote; the attached files being there afterwards)
    must succeed: everything git-bug stores is reachable from its refs in ordinary objects *)
 StepOK(prev, cur) == cur.foreign = prev /\ cur.fsck /\ cur.refsok /\ (cur.interop => cur.exit = 0)
+                     /\ ~cur.hung      \* every command comes back (a push of what git-bug wrote, for one)
 =============================================================================
